@@ -486,7 +486,6 @@ func (e *Env) RClauseSym() {
 		})
 	}
 	e.Run.Analysed("clause-kind conditions", n)
-	e.Run.Floor("R-CLAUSESYM", "conditions on clause kinds", n, 1)
 	// the type-switch form: `case *ast.CommClause, *ast.CaseClause:` lists both
 	for _, fd := range load.AllFuncDecls(pkg) {
 		if fd.Body == nil || isRestorePath(fd) {
@@ -507,12 +506,14 @@ func (e *Env) RClauseSym() {
 			sort.Strings(names)
 			hasCase, hasComm := contains(names, "CaseClause"), contains(names, "CommClause")
 			if (hasCase || hasComm) && len(names) <= 2 && fd.Name.Name != "addNodeFragments" && fd.Name.Name != "decorateNode" {
+				n++
 				e.Run.Check("R-CLAUSESYM", fmt.Sprintf("%s: type-switch arm %v lists both clause kinds", load.FuncName(fd), names), e.Prog.Pos(cc.Pos()), hasCase && hasComm,
 					"an arm for one clause kind only")
 			}
 			return true
 		})
 	}
+	e.Run.Floor("R-CLAUSESYM", "conditions / type-switch arms on clause kinds", n, 1)
 }
 
 func identOf(o types.Object) ast.Expr { return &ast.Ident{Name: o.Name()} }
